@@ -1,13 +1,13 @@
 SPECIFICATION Spec
 CONSTANTS
-  Ids = {"x"}
-  MaxLen = 3
-  MaxDepth = 2
-  MixKinds = TRUE
-  AsmForms = TRUE
+  Ids = {"x", "y", "z"}
+  MaxLen = 5
+  MaxDepth = 0
+  MixKinds = FALSE
+  AsmForms = FALSE
   AsmFirst = FALSE
   Kinds = {"obj", "func"}
-  Family = "all"
+  Family = "tentative"
   DevsOn = {"ThreadNoTentative", "ThreadMismatchNotDiagnosed", "InlineLateExternal", "NoUsedInternalUndefDiag"}
   OkPrefix = FALSE
   SampleMod = 4
